@@ -1,5 +1,5 @@
 /-
-  Statrs.Draft.Lemmas.C09Vector — helper lemmas for the C09 theorems about the VECTOR / MATRIX
+  Statrs.Lemmas.C09Vector — helper lemmas for the C09 theorems about the VECTOR / MATRIX
   constructors (Multinomial, Dirichlet, MultivariateNormal, MultivariateStudent, Categorical):
 
     * facts about the exact-value carrier `XR` that the scalar constructors did not need
